@@ -65,25 +65,32 @@ _FC = {f: 1 for f in ("self", "local", "cap", "cat", "tcallself", "tself", "tloc
 
 
 def alphabets():
-    full = ir.Alphabet(
-        "full", forms=ir.EXPR_FORMS + ir.TAG_FORMS, flags=ir.ALL_FLAGS, form_cost=_FC, flag_cost=1, ba_cost=(0, 1, 1),
-        nested_cost=1,
-    )
-    core_ = ir.Alphabet(
-        "core", forms=("bare", "tcall", "tself"), flags=(N_, B_, F_), bodyargs=(0, 1), cb_modes=("plain",), nested=False,
-        form_cost={"tself": 1}, flag_cost=1, ba_cost=(0, 1, 1), nested_cost=1,
-    )
-    return {"full": full, "core": core_}
+    cost = dict(flag_cost=1, ba_cost=(0, 1, 1), nested_cost=1)
+    return {
+        # everything: 9 call forms, all 12 flag subsets, 3 body-arg shapes, nested placement, def inside the call,
+        # caller.body() / capture(caller.body) / caller.named(), % for, <%block filter>
+        "full": ir.Alphabet("full", forms=ir.EXPR_FORMS + ir.TAG_FORMS, flags=ir.ALL_FLAGS, form_cost=_FC, **cost),
+        # deeper, thorough tier: three call forms, {none, buffered, filter}, body args {none, x}
+        "core": ir.Alphabet("core", forms=("bare", "tcall", "tself"), flags=(N_, B_, F_), bodyargs=(0, 1), cb_modes=("plain",),
+                            nested=False, form_cost={"tself": 1}, **cost),
+        # deeper, quick tier: ${f()} and <%call>, {none, buffered}, no body args, no blocks
+        "mini": ir.Alphabet("mini", forms=("bare", "tcall"), flags=(N_, B_), bodyargs=(0,), cb_modes=("plain",),
+                            nested=False, blocks=False, **cost),
+    }
 
 
 BOUNDS = {
     "quick": {
-        "tree_full": {"W": 4, "depth": 3}, "tree_core": {"W": [5], "depth": 3},
-        "bind_flags": 4, "flags_cfgs": 4, "block_len": 3,
+        "tree": [{"alphabet": "full", "W": [1, 2, 3, 4], "depth": 3}, {"alphabet": "mini", "W": [5], "depth": 3}],
+        "bind": {"sigs": 8, "flags": [list(N_), list(D_), [True, 1, False]]},
+        "flags": {"cfgs": [0, 3]},
+        "block_len": 3,
     },
     "thorough": {
-        "tree_full": {"W": 5, "depth": 4}, "tree_core": {"W": [6], "depth": 4},
-        "bind_flags": 12, "flags_cfgs": 4, "block_len": 3,
+        "tree": [{"alphabet": "full", "W": [1, 2, 3, 4, 5], "depth": 4}, {"alphabet": "core", "W": [6], "depth": 4}],
+        "bind": {"sigs": 9, "flags": [list(f) for f in ir.ALL_FLAGS]},
+        "flags": {"cfgs": [0, 1, 2, 3]},
+        "block_len": 3,
     },
 }
 
@@ -120,10 +127,6 @@ ATTRS = [
 ]
 
 
-def _flag_list(n):
-    return [N_, B_, F_, D_] if n == 4 else list(ir.ALL_FLAGS)
-
-
 def bind_program(sig, params, args, form, fl, nested, seed):
     pre = ir.NAME_POOL[seed % len(ir.NAME_POOL)]
     txt = ir.TEXT_POOL[seed % len(ir.TEXT_POOL)]
@@ -152,8 +155,9 @@ def bind_program(sig, params, args, form, fl, nested, seed):
 
 
 def iter_bind(tier, seed):
-    flags = _flag_list(BOUNDS[tier]["bind_flags"])
-    for (sig, params) in SIGS:
+    b = BOUNDS[tier]["bind"]
+    flags = [tuple(f) for f in b["flags"]]
+    for (sig, params) in SIGS[: b["sigs"]]:
         for form in ir.EXPR_FORMS + ir.TAG_FORMS:
             pool = ATTRS if form in ir.NS_FORMS else ARGS
             for args in pool:
@@ -169,9 +173,9 @@ def iter_bind(tier, seed):
 
 
 def iter_flags(tier, seed):
-    ncfg = BOUNDS[tier]["flags_cfgs"]
+    cfgs = BOUNDS[tier]["flags"]["cfgs"]
     inner_bf = ("call", "bare", (True, 1, False), "top", None, ())  # a buffered+filtered def called from the callee
-    for cfg in range(ncfg):
+    for cfg in cfgs:
         for fl in ir.ALL_FLAGS:
             for form in ir.EXPR_FORMS + ir.TAG_FORMS:
                 places = ("top", "nested") if form in ir.BARE_FORMS else ("top",)
@@ -198,6 +202,42 @@ def iter_flags(tier, seed):
                             yield {"family": "flags", "cfg": cfg,
                                    "skel": (("call", "tcall", N_, "top", (0, None, (call,)), (("cb", "plain"), ("cb", "plain"))),)}
                             yield {"family": "flags", "cfg": cfg, "skel": (("for", (call,)),)}
+    yield from iter_calldef(cfgs[:2], seed)
+
+
+def calldef_program(form, nfl, in_def, mention, seed, cfg):
+    """a def written inside a call, itself invoked WITH content by the callee; it must see its own caller"""
+    pre = ir.NAME_POOL[seed % len(ir.NAME_POOL)]
+    txt = ir.TEXT_POOL[seed % len(ir.TEXT_POOL)]
+    probe = ["expr", "caller.body() if caller else '~'"]
+
+    def mkdef(name, sig, body, fl=N_):
+        return {"name": name, "sig": sig, "buffered": bool(fl[0]), "filters": ir.filters_of(fl[1]), "deco": bool(fl[2]), "defs": [], "body": body}
+
+    d2 = mkdef(pre + "2", "a", [["text", pre + "2("], ["call", "tcall", "caller.named", "", {"args": "", "named": [], "body": [["text", "N<>"]]}], ["text", ")"]])
+    named = mkdef("named", "", [["text", "named{"], probe, ["text", "}"]], nfl)
+    args = "2" if form in ("tcall", "tcallself") else [["a", [["lit", "2"]]]]
+    site = [["call", form, pre + "2", args, {"args": "", "named": [named], "body": [["text", txt + "2<>"]]}]]
+    if mention:
+        site.append(probe)
+    if in_def:
+        d1 = mkdef(pre + "1", "a", [["text", pre + "1("]] + site + [["text", ")"]])
+        body = [["text", "["], ["call", "tcall", pre + "1", "1", {"args": "", "named": [], "body": [["text", txt + "1<>"]]}], ["text", "]"]]
+        defs = [d1, d2]
+    else:
+        body = [["text", "["]] + site + [["text", "]"]]
+        defs = [d2]
+    return {"defs": defs, "body": body, "cfg": cfg, "ctx": {"v": c05_env.V_POOL[seed % len(c05_env.V_POOL)]}}
+
+
+def iter_calldef(cfgs, seed):
+    for cfg in cfgs:
+        for form in ("tcall", "tself"):
+            for nfl in (N_, B_, F_, (True, 2, False)):
+                for in_def in (False, True):
+                    for mention in (False, True):
+                        yield {"family": "flags", "calldef": True, "nontrivial": True,
+                               "prog": calldef_program(form, nfl, in_def, mention, seed, cfg)}
 
 
 # ---------------------------------------------------------------------------
@@ -205,16 +245,11 @@ def iter_flags(tier, seed):
 
 
 def iter_tree(tier, seed):
-    b = BOUNDS[tier]
     A = alphabets()
-    f = b["tree_full"]
-    for w in range(1, f["W"] + 1):
-        for skel in ir.iter_programs(A["full"], f["depth"], w):
-            yield {"family": "tree", "skel": skel, "cfg": 0, "w": w}
-    c = b["tree_core"]
-    for w in c["W"]:
-        for skel in ir.iter_programs(A["core"], c["depth"], w):
-            yield {"family": "tree", "skel": skel, "cfg": 0, "w": w}
+    for part in BOUNDS[tier]["tree"]:
+        for w in part["W"]:
+            for skel in ir.iter_programs(A[part["alphabet"]], part["depth"], w):
+                yield {"family": "tree", "skel": skel, "cfg": 0, "w": w}
 
 
 FAMILIES = {"bind": iter_bind, "flags": iter_flags, "tree": iter_tree}
@@ -389,6 +424,10 @@ def check_program(st, family, prog, nontrivial, extra=None):
         g2, _pr = run_mako(ir.print_program(p2), p2)
         if tuple(g2[:2]) == tuple(ref.expected(p2)):
             viol = ("calldef-decorator:not exported on caller",) + viol[1:]
+    if viol is not None and extra and extra.get("calldef") and got[0] == "ok":
+        # footprint of "a def written inside a call sees the call site's caller instead of its own"
+        if ("ok", got[1]) == tuple(ref.expected(prog, calldef_caller="outer")):
+            viol = ("calldef-caller:sees the call site's caller",) + viol[1:]
     if viol is not None:
         st.violation(viol[0], case, viol[1], expected=viol[2], observed=viol[3])
     if got[0] == "ok":
@@ -424,7 +463,7 @@ def run_job(job):
         if idx % ns != sh:
             continue
         prog, nontrivial = materialise(item, seed)
-        extra = {"sig": item["sig"]} if "sig" in item else None
+        extra = {k: item[k] for k in ("sig", "calldef") if k in item} or None
         src, exp, got = check_program(st, fam, prog, nontrivial, extra)
         n += 1
         if n % 1499 == 1:
@@ -438,7 +477,7 @@ def run_job(job):
 
 def replay(case):
     st = Stats()
-    extra = {"sig": case["sig"]} if "sig" in case else None
+    extra = {k: case[k] for k in ("sig", "calldef") if k in case} or None
     check_program(st, case["family"], case["prog"], False, extra)
     if st.violations:
         v = st.violations[0]
